@@ -26,8 +26,8 @@ FILES = {
     "evaluation/metrics/tracking/tracking_metrics_score.py": ["C05"],
     "evaluation/metrics/classification/accuracy.py": ["C11"],
     "evaluation/metrics/classification/classification_metrics_score.py": ["C11"],
-    "evaluation/metrics/metrics.py": ["C13", "C04"],
-    "evaluation/result/perception_frame_result.py": ["C03", "C13"],
+    "evaluation/metrics/metrics.py": ["C13", "C11", "C04"],
+    "evaluation/result/perception_frame_result.py": ["C03", "C19", "C13"],
     "evaluation/result/perception_pass_fail_result.py": ["C03"],
     "evaluation/sensing/sensing_frame_result.py": ["C12"],
     "evaluation/sensing/sensing_result.py": ["C12"],
